@@ -12,10 +12,10 @@ proves that it stays inside an isolating node containing both ends; likewise eve
 Search: tokens before the node's opening and after its closing unchanged, the node itself (type,
 attributes, marks) still there — for all ranges inside isolating nodes incl. their whole content.
 """
-from prosemirror.model import Fragment, Slice
+from prosemirror.model import Fragment, Node, Slice
 from prosemirror.transform import Transform
 from prosemirror.transform.replace import covered_depths
-from prosemirror.transform.structure import can_split, lift_target
+from prosemirror.transform.structure import NodeTypeWithAttrs, can_split, lift_target
 
 from .. import core, gen, ops, rangeplan, schemas
 from ..codec import doc_tokens
@@ -82,6 +82,87 @@ def aimed_nested_doc(rng, info):
     return d if st == "ok" else None
 
 
+def gen_types_after(rng, schema, r, dp, iso_depth):
+    """a `types_after` list for can_split / split at `r`, `dp` levels deep: one entry per split level (outermost first),
+    each the type the node has anyway (with its attributes) or another block type at random — for the level of an isolating
+    node mostly a type that is *not* isolating; sometimes only the outer levels are named (a shorter list)"""
+    cands = [t for t in schema.nodes.values() if not t.is_leaf and not t.is_text and not t.is_inline and not t.has_required_attrs()]
+    plain = [t for t in cands if not t.spec.get("isolating")]
+    out, changed = [], False
+    for i in range(dp):
+        node = r.node(r.depth - dp + 1 + i)
+        is_iso = bool(node.type.spec.get("isolating"))
+        x = rng.random()
+        if x < (0.2 if is_iso else 0.55) or not cands:
+            out.append(NodeTypeWithAttrs(node.type, node.attrs))
+            continue
+        pool = plain if (is_iso and plain and rng.random() < 0.85) else cands
+        if node.inline_content and rng.random() < 0.7:
+            pool = [t for t in pool if t.inline_content] or pool
+        elif not node.inline_content and rng.random() < 0.7:
+            pool = [t for t in pool if not t.inline_content] or pool
+        t = rng.choice(pool)
+        out.append(NodeTypeWithAttrs(t, gen.gen_attrs(rng, t)))
+        changed = changed or t is not node.type
+    if not changed:
+        return None
+    if dp > 1 and rng.random() < 0.15:
+        out = out[:rng.randint(1, dp - 1)]
+    return out
+
+
+def describe_types(ta):
+    return [[x.type.name, x.attrs] for x in ta]
+
+
+class Mirror:
+    """the like-named schema variant in which no node type is isolating (schemas.flag_variant "strip"): the same documents
+    (through JSON) and the same calls, made there *before* they are made on the schema under check.  Nothing is checked on
+    the variant — the property says nothing about it; what is checked is that the answers for the isolating schema do not
+    depend on what the library was asked about another schema with equal type names earlier in the process."""
+
+    def __init__(self, info):
+        self.info = schemas.flag_variant(info, "strip")
+        self.S = self.info.schema
+        self._docs = {}
+
+    def doc(self, d):
+        if id(d) not in self._docs:
+            self._docs[id(d)] = (d, Node.from_json(self.S, d.to_json()))
+        return self._docs[id(d)][1]
+
+    def conv(self, a):
+        if isinstance(a, Slice):
+            return Slice.from_json(self.S, a.to_json())
+        if isinstance(a, Node):
+            return Node.from_json(self.S, a.to_json())
+        if isinstance(a, NodeTypeWithAttrs):
+            return NodeTypeWithAttrs(self.S.nodes[a.type.name], a.attrs)
+        if isinstance(a, list):
+            return [self.conv(x) for x in a]
+        return a
+
+    def op(self, ctx, d, name, args):
+        d2 = self.doc(d)
+        args2 = [self.conv(a) for a in args]
+        st, _ = outcome(lambda: getattr(Transform(d2), name)(*args2))
+        ctx.count("same call first on the like-named schema without isolating nodes")
+        return st
+
+    def probes(self, ctx, d, p, q, types_after):
+        d2 = self.doc(d)
+        f_, t_ = min(p, q), max(p, q)
+        outcome(lambda: covered_depths(d2.resolve(f_), d2.resolve(t_)))
+        br = outcome(lambda: d2.resolve(f_).block_range(d2.resolve(t_)))
+        if br[0] == "ok" and br[1] is not None:
+            outcome(lambda: lift_target(br[1]))
+        for dp in (1, 2, 3):
+            outcome(lambda: can_split(d2, p, dp))
+        for dp, ta in types_after:
+            outcome(lambda: can_split(d2, p, dp, self.conv(ta)))
+        ctx.count("same probes first on the like-named schema without isolating nodes")
+
+
 def gen_iso_doc(rng, info):
     if rng.random() < 0.3:
         d = aimed_nested_doc(rng, info)
@@ -127,13 +208,21 @@ def run(ctx):
     for si in range(ctx.budget(8, 40)):
         if len(reqs) >= 15000:
             flush()     # keep memory bounded in long runs
-        info = fams[si % 2]
+        info = fams[(si // 3) % 2 if si % 3 == 2 else si % 2]
+        if si % 3 == 2:
+            # a further isolating variant with the *same type names*: the isolating flag moved from `iso` / `table` / `cell` to
+            # other block containers of the schema (blockquote, lists, items, rows …).  Used alternately with the two fixed
+            # variants in one process: what the library answers must depend on the schema at hand, not on the names.
+            info = schemas.flag_variant(info, "move", rng)
+            ctx.count("schema: isolating flags moved to other containers")
         schema = info.schema
         ctx.driver.add_schema(info)
+        mirror = Mirror(info)
         docs = [x for x in (gen_iso_doc(rng, info) for _ in range(ctx.budget(4, 8))) if x is not None]
         if not docs:
             continue
-        for d in docs:
+        for di, d in enumerate(docs):
+            ctx.driver.add_schema(info)     # (a violation's replay names the schema used last)
             old = doc_tokens(d)
             # ---- Slice.max_open, both flags (exact)
             for n in [d] + [c for (_, _, _, c) in iso_nodes(d)]:
@@ -158,9 +247,14 @@ def run(ctx):
             for (a, b, depth, node) in iso_nodes(d):
                 inner = [p for p in gen.aligned_positions(d) if a + 1 <= p <= b - 1]
                 pairs = [(a + 1, b - 1)] + [tuple(sorted((rng.choice(inner), rng.choice(inner)))) for _ in range(ctx.budget(8, 20))]
-                for (f, t) in pairs:
+                for pi_, (f, t) in enumerate(pairs):
                     if ctx.time_left() < 0:
                         break
+                    # every call of this case is made on the like-named schema without isolating nodes first: for the first
+                    # cases of the first document of a schema, now and then later
+                    mirror_now = (di == 0 and pi_ < 6) or rng.random() < 0.1
+                    if mirror_now:
+                        mirror.op(ctx, d, "delete_range", [f, t])
                     # the range delete_range widens [f, t] to (tied exactly to the model, for which Props/C18.lean proves
                     # `deleteRange_inside_isolating`): it must stay within the isolating node's content
                     tgt = rangeplan.tie_delete_range(ctx, info, d, f, t, reqs, metas, extra={"iso": [a, b]})
@@ -184,6 +278,9 @@ def run(ctx):
                     # `replaceRange_inside_isolating`): every range it hands to Transform.replace stays within the node's content
                     rr_slice = args[2] if name in ("replace_range", "replace") else Slice.empty if name in ("delete_range", "delete") \
                         else Slice(Fragment.from_(n2), 0, 0)
+                    if mirror_now:
+                        mirror.op(ctx, d, "replace_range", [f, f if name == "insert" else t, rr_slice])
+                        mirror.op(ctx, d, name, args)
                     plan = rangeplan.tie_replace_range(ctx, info, d, f, f if name == "insert" else t, rr_slice, reqs, metas, extra={"iso": [a, b]})
                     if isinstance(plan, list):
                         for (x, y, _) in ([plan[1]] if plan[0] == "direct" else plan[1]):
@@ -262,9 +359,18 @@ def run(ctx):
                 # ---- lift targets and splits stay inside
                 for p in inner[:40]:
                     r = d.resolve(p)
+                    # `types_after` lists for the splits that would cross the node's boundary (and for one that would not)
+                    tas = []
+                    for dp in (1, 2, 3):
+                        if 0 <= r.depth - dp and (r.depth - dp < depth or rng.random() < 0.25):
+                            ta = gen_types_after(rng, schema, r, dp, depth)
+                            if ta is not None:
+                                tas.append((dp, ta))
                     # covered_depths / lift_target / can_split tied exactly to the model (PM/Structure.lean), whose answers
                     # Props/C18.lean proves never to cross an isolating ancestor
                     q = rng.choice(inner)
+                    if di == 0 or rng.random() < 0.1:
+                        mirror.probes(ctx, d, p, q, tas)
                     f_, t_ = min(p, q), max(p, q)
                     stc, cov = outcome(lambda: covered_depths(d.resolve(f_), d.resolve(t_)))
                     if stc == "ok":
@@ -323,6 +429,28 @@ def run(ctx):
                             elif ok:
                                 ctx.violation("split-crosses", "can_split approves a split that crosses the isolating node's boundary",
                                               {"schema": info.name, "doc": d.to_json(), "pos": p, "depth": dp, "iso": [a, b], "iso_depth": depth})
+                    for dp, ta in tas:
+                        crossing = r.depth - dp < depth
+                        rp_ = {"schema": info.name, "doc": d.to_json(), "pos": p, "depth": dp, "types_after": describe_types(ta), "iso": [a, b], "iso_depth": depth}
+                        sts, ok = outcome(lambda: can_split(d, p, dp, ta))
+                        ctx.count("can_split with types_after (" + ("crossing" if crossing else "inside") + "):" + (str(bool(ok)) if sts == "ok" else sts))
+                        if sts != "ok":
+                            if sts in ("internal", "hang") and gen.pair_aligned(d, p):
+                                ctx.violation("can_split-raises", f"can_split with types_after raised {ok}", rp_)
+                            continue
+                        if ok and crossing:
+                            ctx.violation("split-crosses", "can_split (with types_after) approves a split that crosses the isolating node's boundary", rp_)
+                        elif ok:
+                            # approved and inside: the split itself leaves everything outside the node's content alone
+                            old_s = doc_tokens(d)
+                            trs = Transform(d)
+                            stS, valS, _ = ops.run_op(trs, lambda tr_: tr_.split(p, dp, ta))
+                            if stS == "ok":
+                                new_s = doc_tokens(trs.doc)
+                                tail_s = len(old_s) - (b - 1)
+                                if not (len(new_s) >= a + 1 + tail_s and new_s[:a + 1] == old_s[:a + 1] and new_s[len(new_s) - tail_s:] == old_s[b - 1:]
+                                        and match_close(new_s, a) == len(new_s) - tail_s):
+                                    ctx.violation("split-escaped", "an approved split inside an isolating node changed tokens outside the node's content", rp_)
                     ctx.count("lift/split probes")
     flush()
     return ctx.finish(
